@@ -16,7 +16,7 @@ import (
 	"verif/harness/sm"
 )
 
-const ruleC02 = "twin collections in one database: A is never indexed, B carries a generated index set over {x, xy, y, n, n.a, s, t, u, _id} created before, between and after the writes; every write (insert, save, replace, point and bulk update/delete with uniquely determined targets) is applied to both with identical ids. Each generated query (criteria biased to indexed fields, nil / field-reference operands, In/Like/Exists/Contains and negations, Or/Not nesting, every sort direction, skip/limit) is run with FindAll and Count on both: same error class, same id set, same sequence of sort-key tuples (absent = nil), same Count, and both results admissible for the reference model; after bulk writes the complete contents of A and B are equal. A counting decorator records whether B's plan positioned a cursor inside an index. An evaluation is one compared query; non-trivial when B's plan seeked into an index and the expected result is neither empty nor the whole collection, or a sort was served by the index; distinct = distinct (query, contents, index set)."
+const ruleC02 = "twin collections in one database: A is never indexed, B carries a generated index set over {x, xy, y, n, n.a, s, t, u, _id} created before, between and after the writes; every write (insert, save, replace, point and bulk update/delete with uniquely determined targets) is applied to both with identical ids. Each generated query (criteria biased to indexed fields, nil / field-reference operands, In/Like/Exists/Contains and negations, Or/Not nesting, every sort direction, skip/limit) is run with FindAll and Count on both: same error class, same id set, same sequence of sort-key tuples (absent = nil), same Count, and both results admissible for the reference model; after bulk writes the complete contents of A and B are equal; occasionally both twins are dropped and re-created under the same names with the same ids and changed values, and after every catalog change the raw key space is audited so that no index entry of an earlier incarnation survives. A counting decorator records whether B's plan positioned a cursor inside an index. An evaluation is one compared query; non-trivial when B's plan seeked into an index and the expected result is neither empty nor the whole collection, or a sort was served by the index; distinct = distinct (query, contents, index set)."
 
 func c02Profile() *sm.Profile {
 	return &sm.Profile{
@@ -38,7 +38,17 @@ func c02Session(backend string) (*sm.Session, error) {
 	if err != nil {
 		return nil, err
 	}
-	s.Hooks = []sm.Hook{twinHook}
+	s.Hooks = []sm.Hook{twinHook, func(s *sm.Session, op *cs.Op, out *cs.Outcome) *sm.Fail {
+		// index entries of B must be exactly those of its live documents, whatever happened before
+		// (residue of an earlier incarnation of the collection would resurface through the index)
+		switch op.Kind {
+		case "createindex", "dropindex", "createcoll", "dropcoll":
+			if msg := run.Audit(s.H.Raw, s.M); msg != "" {
+				return &sm.Fail{Property: "C02", Clause: "index-residue", Detail: msg + "  [after " + op.String() + "]"}
+			}
+		}
+		return nil
+	}}
 	return s, nil
 }
 
@@ -236,6 +246,36 @@ func TestC02(t *testing.T) {
 						op.Field = rapid.SampledFrom(cands).Draw(rt, "ixfield-b")
 					}
 					do(op)
+					return
+				case "delete":
+					if rapid.IntRange(0, 5).Draw(rt, "recreate") == 0 && s.M.Colls["A"] != nil && s.M.Colls["B"] != nil {
+						// drop both twins and start again under the same names with the same ids: indexes
+						// created later must only see the new documents
+						keep := []cs.Doc{}
+						for _, id := range s.M.Colls["A"].Ids() {
+							d := cs.CloneDoc(s.M.Colls["A"].Docs[id])
+							for _, f := range []string{"x", "y", "xy"} {
+								if rapid.Bool().Draw(rt, "recreate-change") {
+									d[f] = gen.Scalar(p.Doc.Val).Draw(rt, "recreate-val")
+								}
+							}
+							keep = append(keep, d)
+						}
+						do(cs.Op{Kind: "dropcoll", Coll: "A"})
+						do(cs.Op{Kind: "dropcoll", Coll: "B"})
+						do(cs.Op{Kind: "createcoll", Coll: "A"})
+						do(cs.Op{Kind: "createcoll", Coll: "B"})
+						do(cs.Op{Kind: "insert", Coll: "A", Docs: keep})
+						do(cs.Op{Kind: "insert", Coll: "B", Docs: keep})
+						return
+					}
+					if op.Q != nil && s.M.Colls["A"] != nil {
+						if _, ok := model.Select(op.Q, s.M.Colls["A"].Docs); !ok {
+							op.Q.Skip, op.Q.Limit = nil, nil
+						}
+					}
+					do(op)
+					do(mirror(op))
 					return
 				case "find":
 					// bias the query towards B's indexed fields
